@@ -38,6 +38,7 @@ type JobSpec struct {
 	Noops        []string           `json:"noops"`
 	AllowPkgs    []string           `json:"allow_pkgs"`
 	InitPkgs     []string           `json:"init_pkgs"` // packages whose init() is executed first
+	FixedNow     int64              `json:"fixed_now"` // time.Now() returns this instant (ns since 1970)
 	FloatUF      bool               `json:"float_uf"`
 	Solvers      []string           `json:"solvers"`
 	Timeout      int                `json:"timeout"`
@@ -98,13 +99,19 @@ func harnessOverlay(pkgDir, harness string, withTest bool) (map[string][]byte, s
 		if err != nil {
 			return nil, "", err
 		}
-		if pkgName == "" {
+		if pkgName == "" && !strings.HasPrefix(en.Name(), "pkg_") {
 			for _, l := range strings.Split(string(b), "\n") {
 				if strings.HasPrefix(l, "package ") {
 					pkgName = strings.TrimSpace(strings.TrimPrefix(l, "package "))
 					break
 				}
 			}
+		}
+		if strings.HasPrefix(en.Name(), "pkg_") {
+			// pkg_<dir with __ for />__<file>.go goes into another repo package
+			parts := strings.Split(strings.TrimPrefix(en.Name(), "pkg_"), "__")
+			ov[filepath.Join(append([]string{repoDir}, parts...)...)] = b
+			continue
 		}
 		ov[filepath.Join(repoDir, pkgDir, en.Name())] = b
 	}
@@ -200,6 +207,7 @@ func runInstance(lp *LoadedPkg, js *JobSpec, ps map[string]int64, pools map[stri
 		params[k] = v
 	}
 	floatUF = js.FloatUF
+	fixedNow = js.FixedNow
 	allowPkgs = map[string]bool{}
 	for _, p := range js.AllowPkgs {
 		allowPkgs[p] = true
@@ -440,6 +448,7 @@ func cmdRun(args []string) int {
 	pstr := fs.String("params", "", "k=v,k=v")
 	stubs := fs.String("stubs", "", "callee=stub;callee=stub")
 	noops := fs.String("noops", "", "callee;callee")
+	fnow := fs.Int64("now", 0, "fixed time.Now (ns since 1970)")
 	inits := fs.String("init", "", "packages whose init() runs first, comma separated")
 	allow := fs.String("allow", "", "extra allow-listed packages, comma separated")
 	nolem := fs.Bool("nolemmas", false, "disable zzLemma")
@@ -477,6 +486,7 @@ func cmdRun(args []string) int {
 		}
 	}
 	lemmasOff = *nolem
+	js.FixedNow = *fnow
 	if *inits != "" {
 		js.InitPkgs = strings.Split(*inits, ",")
 	}
